@@ -26,8 +26,34 @@ Summary ==
 
 GInit == Init /\ h = <<>> /\ fin = FALSE
 
+\* Two-stage choice of the next stimulus (kind first, then its arguments): -simulate picks
+\* uniformly among successor STATES, so this makes every kind equally likely and keeps the
+\* number of successors TLC has to build per step small.
+Idle == {s \in Sid : hs[s] = "idle"}
+Early == nstep + 1 < MinSteps         \* stimuli that end the connection are filtered out below
+Used == \E s \in SidsUsed : s <= maxId
+Kinds ==
+  IF holdM.k # "" THEN {"CONT"} \cup (IF Early THEN {} ELSE {"BREAK"})
+  ELSE LET all == (CKinds \cap {"HEADERS", "NEH", "SETTINGS", "PING"})
+                  \cup (IF Used \/ ~Early THEN CKinds \cap {"DATA", "RST"} ELSE {})
+                  \cup (IF Used \/ ~Early \/ 0 \in SidsUsed THEN CKinds \cap {"WU"} ELSE {})
+                  \cup (IF CKinds \cap {"PRIORITY", "PINGACK", "UNKNOWN"} # {} THEN {"NOEFF"} ELSE {})
+                  \cup (IF CKinds \cap {"CONT", "PUSH"} # {} /\ ~Early THEN {"CONNERR"} ELSE {})
+                  \cup (IF Idle # {} THEN {"h-" \o o : o \in HOps \cap {"read", "ret"}} ELSE {})
+                  \cup (IF \E s \in Idle : InMap(s) /\ "write" \in HOps THEN {"h-write"} ELSE {})
+                  \cup (IF \E s \in Idle : InMap(s) /\ ~hsent[s] /\ "hdr" \in HOps THEN {"h-hdr"} ELSE {})
+           no == (IF nhdrs >= MaxHdrs THEN {"HEADERS", "NEH"} ELSE {})
+                 \cup (IF ndata >= MaxData THEN {"DATA"} ELSE {}) IN
+       all \ no
+Choose == /\ ~fin /\ StimAny /\ want = ""
+          /\ want' \in Kinds
+          /\ UNCHANGED <<p, st, maxId, inC, inS, buf, bst, clM, bodyM, outC, outS, iwsM, mfsM, ctl, sq,
+                         needAck, ga, needGA, conn, hs, hk, hprog, hsent, hret, sent, mineM, tag, turn,
+                         nstep, ndata, nhdrs, last, holdM, h, fin>>
+
 GNext ==
-  \/ /\ ~fin /\ Next
+  \/ Choose
+  \/ /\ ~fin /\ Next /\ (turn = "stim" => want # "")
      \* a stimulus that ends the connection (or its judged part) only once MinSteps is reached
      /\ turn = "stim" => (nstep + 1 >= MinSteps \/ (ga' = -1 /\ conn' = "up" /\ ~p'.dead))
      /\ h' = IF turn = "stim" THEN Append(h, [e |-> last', m |-> <<>>])
